@@ -8,6 +8,7 @@ import (
 	"os/exec"
 	"path/filepath"
 	"strings"
+	"verifh/ref/rpar1"
 
 	"github.com/akalin/gopar/par1"
 	"github.com/akalin/gopar/par2"
@@ -21,13 +22,13 @@ import (
 // C20: the par command's exit status reflects the outcome.
 
 type c20Case struct {
-	Fmt   string   `json:"fmt"`            // p2, p1
-	Cmd   []string `json:"cmd"`            // argv template; "{PAR}" = index path as spelled for the cwd, "{F0}".."{F2}" data files, "{MISSING}" a non-existent input
-	Class string   `json:"class"`          // verify, repair, create, usage, badext
-	State string   `json:"state"`          // intact, deleted, shifted, unrepairable, noparity-intact, noparity-damaged, badindex, noindex
-	Cwd   string   `json:"cwd"`            // set, parent, unrelated
+	Fmt   string   `json:"fmt"`             // p2, p1
+	Cmd   []string `json:"cmd"`             // argv template; "{PAR}" = index path as spelled for the cwd, "{F0}".."{F2}" data files, "{MISSING}" a non-existent input
+	Class string   `json:"class"`           // verify, repair, create, usage, badext
+	State string   `json:"state"`           // intact, deleted, shifted, unrepairable, noparity-intact, noparity-damaged, badindex, noindex
+	Cwd   string   `json:"cwd"`             // set, parent, unrelated
 	Limit int      `json:"limit,omitempty"` // the first command runs under a file size limit of this many 512-byte blocks (sh: ulimit -f): writes beyond it fail part-way
-	Then  []string `json:"then,omitempty"` // further steps after Cmd on the same directory: v, va, r, rd (commands), del0 / restore (events)
+	Then  []string `json:"then,omitempty"`  // further steps after Cmd on the same directory: v, va, r, rd (commands), del0 / restore (events)
 }
 
 var c20P2Sizes = []int{11, 6}
@@ -40,6 +41,8 @@ func c20Gen(g *core.Gen) {
 		"big-intact", "big-tail-tight", "big-tail", "big-head-tight",
 		// PAR1 only: the set also protects a zero-length file, which is intact / deleted / overwritten with bytes / deleted together with every volume
 		"empty-intact", "empty-deleted", "empty-garbage", "empty-deleted-noparity",
+		// PAR1 only: a set written by the reference writer whose index also lists two files that are NOT saved in the parity set
+		"nonsaved-intact", "nonsaved-deleted",
 		"recreated-intact", "recreated-deleted", "recreated-shifted+deleted", "recreated-unrepairable", "dupvol-intact", "dupvol-deleted"}
 	cwds := []string{"set", "parent", "unrelated"}
 	for _, f := range []string{"p2", "p1"} {
@@ -49,7 +52,7 @@ func c20Gen(g *core.Gen) {
 			if f == "p1" && strings.HasPrefix(st, "dupvol") {
 				continue // a PAR1 volume's number is part of its name: a copy under another name is a different scenario (C19)
 			}
-			if f == "p2" && strings.HasPrefix(st, "empty-") {
+			if f == "p2" && (strings.HasPrefix(st, "empty-") || strings.HasPrefix(st, "nonsaved-")) {
 				continue // PAR2 Create refuses zero-length inputs
 			}
 			for _, cw := range cwds {
@@ -208,7 +211,22 @@ func c20Run(ci interface{}, r *core.Rec) {
 				return
 			}
 		}
-		if c.Fmt == "p2" {
+		if strings.HasPrefix(c.State, "nonsaved-") {
+			var es []rpar1.Entry
+			for i, p := range paths {
+				es = append(es, rpar1.MakeEntry(filepath.Base(p), datas[i], true))
+				if i == 0 {
+					es = append(es, rpar1.MakeEntry("notes.sfv", []byte("listed, not saved"), false))
+				}
+			}
+			es = append(es, rpar1.MakeEntry("extra.nfo", []byte("x"), false))
+			ioutil.WriteFile(filepath.Join(setDir, "notes.sfv"), []byte("listed, not saved"), 0644)
+			ioutil.WriteFile(filepath.Join(setDir, "extra.nfo"), []byte("x"), 0644)
+			ioutil.WriteFile(index, rpar1.Write(0, es, nil), 0644)
+			for v := 1; v <= 2; v++ {
+				ioutil.WriteFile(filepath.Join(setDir, fmt.Sprintf("s.p%02d", v)), rpar1.Write(uint64(v), es, rpar1.Parity(datas, v)), 0644)
+			}
+		} else if c.Fmt == "p2" {
 			err = par2.Create(index, paths, par2.CreateOptions{SliceByteCount: 4, NumParityShards: 3, NumGoroutines: 1})
 		} else {
 			err = par1.Create(index, paths, par1.CreateOptions{NumParityFiles: 2})
@@ -271,6 +289,8 @@ func c20Run(ci interface{}, r *core.Rec) {
 		}
 	}
 	switch c.State {
+	case "nonsaved-deleted":
+		os.Remove(paths[1])
 	case "empty-deleted":
 		os.Remove(paths[len(paths)-1])
 	case "empty-garbage":
